@@ -106,7 +106,7 @@ def gen_cases(ctx, n):
                 for b in range(width):
                     if (pat >> b) & 1:
                         pos = bit + b
-                        d2[pos // 8] ^= 0x80 >> (pos % 8)
+                        d2[pos // 8] ^= 1 << (pos % 8)      # bit order of CRC-16/ARC (reflected: least significant bit first)
                 if bytes(d2) == data:
                     continue
                 arch = good[:hl] + bytes(d2)
